@@ -10,6 +10,7 @@ import json, os, struct, sys, time
 from concurrent.futures import ThreadPoolExecutor
 import framework as F
 import floatbase
+import cov_evidence
 sys.path.insert(0, os.path.join(F.VERIF, "translate"))
 import conv2coq           # noqa: E402
 import sampletable2coq    # noqa: E402
@@ -659,8 +660,9 @@ def finish(rep, info, stats, times, fb):
         "regenerated_files": info.get("regenerated", []),
         "evaluations": stats.get("evaluations", 0), "cases": stats.get("cases", 0),
         "distinct_nontrivial": stats.get("nontrivial", 0),
-        "rule": "every op of every case is one evaluation, compared exactly (values, logs of closure calls, iterator call counts, panics). Cases: Sample::{add_amp,mul_amp,to_signed_sample,to_float_sample,EQUILIBRIUM} on boundary-structured + random values of all 14 formats; for i32/u32/i64/u64 additionally mul_amp(s, 1.0) on structured samples (MAX - t and MIN + t around half an ulp of the top binade -- the top ones saturate --, ties and near-ties of every binade above the mantissa, the last exactly representable amplitudes), every mul_amp(s, 1.0) result of the crate also compared with the theorems' closed form min(MAX, equilibrium + RNE(amplitude)) recomputed in exact integer arithmetic; every Frame method on [S; N] for N=1..32 over u8,i16,I24,u32,f32,f64 and N in {1,2,3,8,32} over the other 8 formats, and on every bare sample type; from_samples with every iterator length 0..N+2; iterator-adaptor scripts (structured: nth/skip/step_by/count/last/len on a partly consumed and on an exhausted iterator, next_back/rev on the slice-backed ones; plus random scripts) on ONE channels() / channels_ref() / channels_mut() instance for every (format, N) and every bare sample; both build profiles. non-trivial = an offset/scale/add_amp/mul_amp with a non-zero amplitude on an unsigned or custom-width (24/48-bit) format, or a frame op on N >= 2 channels with distinct values, or a from_samples with fewer than N items, or an iterator script with a position-dependent step after the iterator was advanced (distinct (format, N, op, arguments))",
-        "samples": stats.get("samples", []), "input_distribution": dict(stats.get("hist", {}), panic_observations=stats.get("panics", 0)),
+        "rule": "every op of every case is one evaluation, compared exactly (values, logs of closure calls, iterator call counts, panics). Cases: Sample::{add_amp,mul_amp,to_signed_sample,to_float_sample,EQUILIBRIUM} on boundary-structured + random values of all 14 formats; for i32/u32/i64/u64 additionally mul_amp(s, 1.0) on structured samples (MAX - t and MIN + t around half an ulp of the top binade -- the top ones saturate --, ties and near-ties of every binade above the mantissa, the last exactly representable amplitudes), every mul_amp(s, 1.0) result of the crate also compared with the theorems' closed form min(MAX, equilibrium + RNE(amplitude)) recomputed in exact integer arithmetic; every Frame method on [S; N] for N=1..32 over u8,i16,I24,u32,f32,f64 and N in {1,2,3,8,32} over the other 8 formats, and on every bare sample type; from_samples with every iterator length 0..N+2; iterator-adaptor scripts (structured: nth/skip/step_by/count/last/len on a partly consumed and on an exhausted iterator, next_back/rev on the slice-backed ones, clone-then-next/len of a fresh, a partly consumed and an exhausted channels() / channels_ref() iterator; plus random scripts) on ONE channels() / channels_ref() / channels_mut() instance for every (format, N) and every bare sample; Sample::from_sample spelling of to_signed_sample / to_float_sample, Sample::IDENTITY against FloatSample::IDENTITY, Frame::CHANNELS; writes through channel_mut (in range and refused), channel_unchecked / channel_unchecked_mut inside the bounds, writes through channels_mut() from the front and (rev) from the back with fewer, as many and more new values than channels, the frame read back afterwards; both build profiles. non-trivial = an offset/scale/add_amp/mul_amp with a non-zero amplitude on an unsigned or custom-width (24/48-bit) format, or a frame op on N >= 2 channels with distinct values, or a from_samples with fewer than N items, or an iterator script with a position-dependent step (clone included) after the iterator was advanced, or a write / unchecked read that addresses a channel other than the first of a frame with distinct channels or is refused, or a channels_mut write of fewer new values than channels (distinct (format, N, op, arguments))",
+        "samples": stats.get("samples", []), "input_distribution": dict(stats.get("hist", {}), panic_observations=stats.get("panics", 0),
+                                                                     source_regions_never_entered=cov_evidence.regions(PROP, "Derived impls (Clone of Channels / ChannelsRef) carry no llvm regions: the clone steps of the iterator scripts are counted in iter_clone_steps.")),
         "disagreements": stats.get("bad", 0), "scale_by_one_bound_checked": stats.get("scale_by_one_checked", 0),
         "scale_by_one_inexact_results": stats.get("scale_by_one_inexact", 0), "scale_by_one_saturated_at_max": stats.get("scale_by_one_saturated", 0), "timing": times, "float_model_validation": fb,
         "explanation": "theorems: identities of add_amp/mul_amp per format, re-centring, per-channel / in-order / no-UB theorems for every N; tie: translator for the companion table and conversions + the executable model run by coqc on the same cases as the crates through the public traits, all observations compared exactly",
